@@ -7,7 +7,7 @@ from props.c01 import _rand_grid
 from props.c11 import qc_nested, rand_field, _flat
 
 ID = "C10"
-GEN_UNITS = ["GridT", "FlowAlg"]
+GEN_UNITS = ["GridT", "FlowAlg", "FlowFieldsT"]
 PROPS_FILE = "Props/C10.v"
 PROPS_MOD = "Props.C10"
 COQ_TARGETS = ["Props/C10.vo"]
@@ -15,7 +15,8 @@ SOURCES = ["deepali/data/flow.py", "deepali/core/grid.py", "deepali/core/flow.py
 TRUSTED = [
     "Coq 8.16.1 kernel + vm_compute",
     "translator: Gen/GridT.v (Grid.transform / transform_vectors closed forms, unit of C01) and Gen/FlowAlg.v (expv skeleton, C11)",
-    "hand model of data/flow.py (FlowFields.axes / exp / sample / warp_image: Model/FlowRepr.v), tied by this run's correspondence; "
+    "model of data/flow.py (FlowFields.axes / exp / sample / warp_image: Model/FlowRepr.v): its choice points are regenerated from "
+    "the source by tracing the methods with a stub ImageBatch base (Gen/FlowFields.v) and proved equal; values tied by correspondence; "
     "FlowFields.sample = resample every channel at the target grid's points mapped into the source cube + vector re-scaling (sample_item)",
     "modelled not verified: torch.nn.functional.grid_sample (Model/Sampler.v), float rounding (float32 grid attributes)",
 ]
@@ -245,7 +246,8 @@ MANIFEST_ENTRY = {
             "change), and warp_image gives the same image for all four representations of one displacement; FlowFields.exp AS CODED "
             "is the specification for all four axes, hence representation independent (the repaired defect -- exponentiating the "
             "unconverted tensor -- is kept as a variant and proved different: C10_exp_unconverted_differs). Tie: "
-            "Gen/GridT.v regenerated by tracing; hand model of data/flow.py run in Coq against FlowFields / FlowField axes (16 pairs, shared "
+            "Gen/GridT.v and Gen/FlowFields.v (glue of FlowFields.axes / exp / warp_image / sample traced on symbolic tensors, proved to "
+            "make the model's choices) regenerated by tracing; hand model of data/flow.py run in Coq against FlowFields / FlowField axes (16 pairs, shared "
             "/ per-item grids), exp, warp_image, sample's vector re-scaling.",
     "note": "Known finding: "
             "normalize_grid / denormalize_grid(align_corners=False) are half a sample off the grid's GRID<->CUBE point map. FlowFields.sample as a whole (data resampling at the mapped points, zeros or border padding, + vector re-scaling) "
